@@ -44,10 +44,10 @@ CONFIG.update(
                 "repetition the positions are distinct; Err is returned exactly in the listed cases and nothing panics on evaluated "
                 "input with documented parameters; proportional weights, linear and exponential rank weights are antitone in the "
                 "objective; reverse_rank gives rank 1 to the lowest objective, ties share; a tournament winner is the first minimum "
-                "of its competitors and a whole-population tournament returns a best individual; SUS returns exactly n in exact "
-                "arithmetic (except the degenerate all-zero-weights case); IWO copies each member between min and max times, "
-                "antitone in the objective. Partial forms + counterexample theorems document where the code deviates (known "
-                "findings). The model is tied to /repo by executing the real components and comparing with the compiled Float "
+                "of its competitors and a whole-population tournament returns a best individual; SUS returns exactly n on Ok "
+                "over any carrier (Float included); the DE selections return one block of 2y+1 per member; IWO copies each member between min and max times, "
+                "antitone in the objective. Partial forms + counterexample theorems document the two helper guarantees that "
+                "the code does not meet (side findings below). The model is tied to /repo by executing the real components and comparing with the compiled Float "
                 "model under the recovered witness (K), evaluating the property predicate on the implementation's output (O), and "
                 "a 5-sigma frequency test for selection pressure."),
     level_note=("Trusted: Lean kernel; contracts of rand's sampling primitives; list semantics of iterator adaptors; harness + "
